@@ -98,7 +98,7 @@ Definition judge_step (j : jst) (o : iop) : jst :=
       | Some g' =>
           (* the propagated state of the model: exactly the model closure is incomplete, and (when the marked nodes had
              counter 0) the state is prepared *)
-          let okm := plist_eqb (sortp (fp_start g')) (sortp modelr) && (negb pre || preparedb (xg_of g') (g_cnt g')) in
+          let okm := negb pre || (plist_eqb (sortp (fp_start g')) (sortp modelr) && preparedb (xg_of g') (g_cnt g')) in
           mkJ g' (Some (ideal, modelr, pre, coh)) (j_out j ++ [[i; 2; if okm then 0 else 1; 9; b2z pre; 0]]) (i + 1)
       end
   | IOp o' =>
